@@ -189,6 +189,8 @@ def _sub_ok(B, bi, a, c):
     ka, kc = B.val_key(a), B.val_key(c)
     if kc[0] == "int" and kc[1] == 0:
         return "minus 0"
+    if ka[0] == "int" and ka[1] in (2 ** 64 - 1, 2 ** 32 - 1):
+        return "minuend is the type's MAX"
     for tgt, x, strict, y in B.edge_facts():
         if not B._holds_at(tgt, bi):
             continue
